@@ -78,7 +78,25 @@ func checkC11(R *Run) {
 				continue
 			}
 			src, ok := loadedField(c.Args[0])
+			if _, _, tr := tableRows(c.Args[0]); tr != nil {
+				ok = false
+			}
 			if !ok {
+				// table-driven: for _, sf := range []sideFile{{path: f.xPath, name: X(f.Name)}, …} { Rename(sf.path, Join(newPath, sf.name)) }
+				if arr, _, srcRows := tableRows(c.Args[0]); srcRows != nil {
+					if dj := callValue(c.Args[1]); dj != nil && calleeName(&dj.Call) == "path/filepath.Join" {
+						if a := callArgsFlat(&dj.Call); len(a) == 2 && a[0] == ssa.Value(mv.Params[1]) {
+							if arr2, _, dstRows := tableRows(a[1]); arr2 == arr && len(dstRows) == len(srcRows) {
+								for k := range srcRows {
+									if sf, isF := loadedField(srcRows[k]); isF {
+										moved[shortField(sf)] = stripRecvKeepParam(P.sym(dstRows[k]))
+										movedRaw[shortField(sf)] = stripRecv(P.sym(dstRows[k]))
+									}
+								}
+							}
+						}
+					}
+				}
 				continue
 			}
 			dst := callValue(c.Args[1])
@@ -157,6 +175,12 @@ func checkC11(R *Run) {
 						hdr := ci.Block()
 						if u, isU := stripConv(ci.Common().Args[0]).(*ssa.Index); isU {
 							if ii, isI := u.Index.(ssa.Instruction); isI {
+								hdr = ii.Block()
+							}
+						}
+						var tIdx ssa.Value
+						if _, _, tr := tableRowsIdx(ci.Common().Args[0], &tIdx); tr != nil {
+							if ii, isI := tIdx.(ssa.Instruction); isI {
 								hdr = ii.Block()
 							}
 						}
@@ -593,6 +617,18 @@ func normName(s string) string {
 // of `for _, p := range [...]string{f.a, f.b, f.c}`, every field stored into the literal (the range must cover
 // all of its elements).
 func elemFields(v ssa.Value) []string {
+	// a column of a literal table of structs that a loop ranges over
+	if _, _, rows := tableRows(v); rows != nil {
+		var out []string
+		for _, r := range rows {
+			f, ok := loadedField(r)
+			if !ok {
+				return nil
+			}
+			out = append(out, f)
+		}
+		return out
+	}
 	if f, ok := loadedField(v); ok {
 		return []string{f}
 	}
@@ -766,3 +802,104 @@ func tolerantOnlyNotExist(P *Prog, fn *ssa.Function, skip int) bool {
 }
 
 func init() { register("C11", checkC11) }
+
+
+// tableRows: v reads column j of the element of a literal table of structs that the enclosing loop ranges over in
+// full — `for _, e := range []T{{…}, {…}} { … e.f … }`. It returns the table's backing array, the column and, per
+// row, the value the literal puts into that column.
+func tableRows(v ssa.Value) (*ssa.Alloc, int, []ssa.Value) {
+	a, j, rows := tableRowsIdx(v, nil)
+	return a, j, rows
+}
+
+// tableRowsIdx also hands out the loop's index value.
+func tableRowsIdx(v ssa.Value, index *ssa.Value) (*ssa.Alloc, int, []ssa.Value) {
+	ld, ok := stripConv(v).(*ssa.UnOp)
+	if !ok || ld.Op != token.MUL {
+		return nil, 0, nil
+	}
+	fa, ok := ld.X.(*ssa.FieldAddr)
+	if !ok {
+		return nil, 0, nil
+	}
+	var ia *ssa.IndexAddr
+	switch x := fa.X.(type) {
+	case *ssa.IndexAddr:
+		ia = x
+	case *ssa.Alloc:
+		// the range variable: one copy of the element per iteration
+		src := soleStoreAny(x)
+		el, isLd := src.(*ssa.UnOp)
+		if !isLd || el.Op != token.MUL {
+			return nil, 0, nil
+		}
+		ia, _ = el.X.(*ssa.IndexAddr)
+	}
+	if ia == nil {
+		return nil, 0, nil
+	}
+	var arr *ssa.Alloc
+	switch y := ia.X.(type) {
+	case *ssa.Alloc:
+		arr = y
+	case *ssa.Slice:
+		if a, ok := y.X.(*ssa.Alloc); ok && y.Low == nil && y.High == nil {
+			arr = a
+		}
+	}
+	if arr == nil {
+		return nil, 0, nil
+	}
+	at, ok := derefType(arr.Type()).Underlying().(*types.Array)
+	if !ok || !rangeIndexCovers(ia.Index, at.Len()) {
+		return nil, 0, nil
+	}
+	rows := make([]ssa.Value, at.Len())
+	for _, r := range *arr.Referrers() {
+		e, ok := r.(*ssa.IndexAddr)
+		if !ok || e == ia {
+			continue
+		}
+		k, isConst := constInt(e.Index)
+		if !isConst || k < 0 || k >= at.Len() {
+			return nil, 0, nil
+		}
+		fieldStore := func(base ssa.Value) {
+			refs := base.Referrers()
+			if refs == nil {
+				return
+			}
+			for _, rr := range *refs {
+				f2, ok := rr.(*ssa.FieldAddr)
+				if !ok || f2.Field != fa.Field {
+					continue
+				}
+				for _, r3 := range *f2.Referrers() {
+					if st, ok := r3.(*ssa.Store); ok && st.Addr == ssa.Value(f2) {
+						rows[k] = st.Val
+					}
+				}
+			}
+		}
+		fieldStore(e)
+		// the element built in a temporary and stored whole: `t = T{…}; arr[k] = t`
+		for _, rr := range *e.Referrers() {
+			if st, ok := rr.(*ssa.Store); ok && st.Addr == ssa.Value(e) {
+				if tl, isLd := st.Val.(*ssa.UnOp); isLd && tl.Op == token.MUL {
+					if tmp, isAl := tl.X.(*ssa.Alloc); isAl {
+						fieldStore(tmp)
+					}
+				}
+			}
+		}
+	}
+	for _, r := range rows {
+		if r == nil {
+			return nil, 0, nil
+		}
+	}
+	if index != nil {
+		*index = ia.Index
+	}
+	return arr, fa.Field, rows
+}
